@@ -75,6 +75,10 @@ var allowText string
 type allowEntry struct {
 	fn, kind, desc, why string
 	used                int
+	// derived: not reviewed by hand but re-derived from the source on this very run by the
+	// registered range analysis (derive.go); such an entry names whatever the function and
+	// its operands are called today
+	derived bool
 }
 
 // allowList: reviewed partial operations the skeleton treats as non-faulting.  One per line:
@@ -103,13 +107,36 @@ func parseAllow(text string) (*allowList, error) {
 }
 
 func (a *allowList) covers(fn, kind, desc string) bool {
+	ok, _ := a.coversD(fn, kind, desc)
+	return ok
+}
+
+// coversReviewed consults the hand-written entries only: where the verified IR can decide an
+// operation itself (constant index into a length-tracked local) a derived entry must not
+// replace that proof.
+func (a *allowList) coversReviewed(fn, kind, desc string) bool {
 	for _, e := range a.entries {
-		if e.fn == fn && e.kind == kind && (e.desc == "*" || strings.HasPrefix(desc, e.desc)) {
+		if !e.derived && e.fn == fn && e.kind == kind && (e.desc == "*" || strings.HasPrefix(desc, e.desc)) {
 			e.used++
 			return true
 		}
 	}
 	return false
+}
+
+// coversD is covers that also says whether the covering entry was derived on this run.
+// Derived entries are consulted first, so a hand-written entry that has become derivable
+// shows up as unused.
+func (a *allowList) coversD(fn, kind, desc string) (ok, derived bool) {
+	for _, want := range []bool{true, false} {
+		for _, e := range a.entries {
+			if e.derived == want && e.fn == fn && e.kind == kind && (e.desc == "*" || strings.HasPrefix(desc, e.desc)) {
+				e.used++
+				return true, e.derived
+			}
+		}
+	}
+	return false, false
 }
 
 // funcSkel is the regenerated skeleton of one function.
@@ -136,6 +163,9 @@ type analysis struct {
 	Gos []goFact
 	// Accepted: size-dependent partial operations accepted by an idiom or the allow list
 	Accepted []acceptedSite
+	// Derived: index / slice operations accepted because the range analysis proved them in
+	// range on this run (not pinned: they are re-proved whenever the source changes)
+	Derived []acceptedSite
 	// MayNil: functions (FullName#result) that may return a nil pointer / interface with a nil error
 	MayNil []string
 	// HeldSends: handler-package mutexes held across a write to the session (lockfacts.go)
@@ -147,6 +177,11 @@ type analysis struct {
 	// Waits: per handler package, mutexes held across a wait for the peer / taken on the serve
 	// goroutine (waitfacts.go)
 	Waits []*waitFact
+	// ChanOps: channel operations on the serve goroutine (chanfacts.go)
+	ChanOps []chanOp
+	// RequestHelpers: exported functions of the handler / helper packages that wait for the
+	// peer's answer (chanfacts.go requestHelpers)
+	RequestHelpers []string
 }
 
 func recvName(fd *ast.FuncDecl) string {
@@ -171,10 +206,16 @@ func recvName(fd *ast.FuncDecl) string {
 }
 
 // analyse regenerates the skeletons of every function in scope from the source under repo.
-func analyse(repo string) (*analysis, error) { return analyseScope(repo, scope, allowText) }
+func analyse(repo string) (*analysis, error) { return analyseScopeDerived(repo, scope, allowText, Derive) }
 
 // analyseScope is analyse for an arbitrary set of packages / files and allow list.
 func analyseScope(repo string, scope map[string]func(file string) bool, allowText string) (*analysis, error) {
+	return analyseScopeDerived(repo, scope, allowText, nil)
+}
+
+// analyseScopeDerived: derive (may be nil) sees the type-checked packages and returns further
+// allow entries that it proved on this run (derive.go).
+func analyseScopeDerived(repo string, scope map[string]func(file string) bool, allowText string, derive DeriveFunc) (*analysis, error) {
 	al, err := parseAllow(allowText)
 	if err != nil {
 		return nil, err
@@ -187,6 +228,25 @@ func analyseScope(repo string, scope map[string]func(file string) bool, allowTex
 	})
 	if err != nil {
 		return nil, err
+	}
+	if derive != nil {
+		extra, err := derive(fset, loadedPackages(pkgs, scope))
+		if err != nil {
+			return nil, fmt.Errorf("derived allow entries: %v", err)
+		}
+		dl, err := parseAllow(extra)
+		if err != nil {
+			return nil, fmt.Errorf("derived allow entries: %v", err)
+		}
+		for _, e := range dl.entries {
+			// only arithmetic-guarded index / slice operations can be derived; anything else
+			// would be a way around the reviewed list
+			if e.kind != "index" && e.kind != "slice" || e.desc == "*" {
+				return nil, fmt.Errorf("derived allow entry of kind %q (%s %s)", e.kind, e.fn, e.desc)
+			}
+			e.derived = true
+			al.entries = append(al.entries, e)
+		}
 	}
 	an := &analysis{Allow: al}
 	summaries := mayNilSummaries(pkgs, func(name string) bool { return al.covers(name, "maynil-callee", "*") })
@@ -201,7 +261,7 @@ func analyseScope(repo string, scope map[string]func(file string) bool, allowTex
 		rel := strings.TrimPrefix(strings.TrimPrefix(l.Path, modPath), "/")
 		seen[rel] = true
 		filter := scope[rel]
-		x := &xl{fset: fset, l: l, repo: repo, sites: &an.Sites, allow: al, ctorMaps: ctorMapFields(l), mayNil: summaries, acceptedOut: &an.Accepted}
+		x := &xl{fset: fset, l: l, repo: repo, sites: &an.Sites, allow: al, ctorMaps: ctorMapFields(l), mayNil: summaries, acceptedOut: &an.Accepted, derivedOut: &an.Derived}
 		if rel == "" {
 			an.Locks = lockFactsOf(l, only("session.go"), fset)
 			an.HasLocks = true
@@ -211,9 +271,15 @@ func analyseScope(repo string, scope map[string]func(file string) bool, allowTex
 		an.Cancels = append(an.Cancels, cancelFactsOf(l, scope[rel])...)
 		if rel != "" {
 			an.HeldSends = append(an.HeldSends, heldAcrossSend(l, scope[rel])...)
-			if wf := waitFactsOf(l); wf != nil {
+			wf, ops, helpers := waitFactsOfX(l, fset)
+			if wf != nil {
 				an.Waits = append(an.Waits, wf)
 			}
+			for i := range ops {
+				ops[i].File = strings.TrimPrefix(strings.TrimPrefix(ops[i].File, repo), "/")
+			}
+			an.ChanOps = append(an.ChanOps, ops...)
+			an.RequestHelpers = append(an.RequestHelpers, helpers...)
 		}
 		pkgName := l.Pkg.Name()
 		for i, file := range l.Files {
@@ -272,11 +338,13 @@ func Facts(repo string) (string, error) {
 		fmt.Fprintf(&b, "/- extraction failed: %s -/\n", strings.ReplaceAll(err.Error(), "-/", "- /"))
 		b.WriteString("def skeletons : Option (List (String × Stmt)) := none\n")
 		b.WriteString("def trustedSites : Nat := 0\n")
+		b.WriteString("def derivedSites : Nat := 0\n")
 		b.WriteString(leanLockFacts(nil, err))
 		b.WriteString(leanGoFacts(nil, false))
 		b.WriteString(leanPageTurns(nil, false))
 		b.WriteString(leanHeldSends(nil, false))
 		b.WriteString(leanWaitFacts(nil, false))
+		b.WriteString(leanChanOps(nil, false))
 		b.WriteString("def cancels : List (String × Bool) := []\n")
 		b.WriteString("def acceptedSizes : List (String × String × String) := []\n")
 		b.WriteString("end XmppModel.Generated.C09\n")
@@ -299,11 +367,21 @@ func Facts(repo string) (string, error) {
 	}
 	b.WriteString("]\n\n")
 	fmt.Fprintf(&b, "/-- functions in scope: %d, of which %d have a skeleton without any partial operation -/\ndef functionsInScope : Nat := %d\ndef trivialFunctions : Nat := %d\n\n", len(an.Funcs), trivial, len(an.Funcs), trivial)
-	used := 0
+	used, derived := 0, 0
 	for _, e := range an.Allow.entries {
-		used += e.used
+		if e.derived {
+			derived += e.used
+		} else {
+			used += e.used
+		}
 	}
 	fmt.Fprintf(&b, "/-- partial operations accepted through the reviewed allow list (harness/c09/allow.txt) -/\ndef trustedSites : Nat := %d\n\n", used)
+	fmt.Fprintf(&b, "/-- index / slice operations accepted because the range analysis (harness/c19/arith.go) proved\nthem in range on this run; not pinned -/\ndef derivedSites : Nat := %d\n", derived)
+	b.WriteString("/-! Derived sites:\n")
+	for _, d := range an.Derived {
+		fmt.Fprintf(&b, "  %s %s %s\n", d.Fn, d.Kind, strings.ReplaceAll(d.Expr, "-/", "- /"))
+	}
+	b.WriteString("-/\n\n")
 	if an.HasLocks {
 		b.WriteString(leanLockFacts(an.Locks, nil))
 	} else {
@@ -314,6 +392,8 @@ func Facts(repo string) (string, error) {
 	b.WriteString(leanHeldSends(an.HeldSends, true))
 	sort.SliceStable(an.Waits, func(i, j int) bool { return an.Waits[i].Pkg < an.Waits[j].Pkg })
 	b.WriteString(leanWaitFacts(an.Waits, true))
+	sort.SliceStable(an.ChanOps, func(i, j int) bool { return an.ChanOps[i].Pkg < an.ChanOps[j].Pkg })
+	b.WriteString(leanChanOps(an.ChanOps, true))
 	b.WriteString("/-- context.With… in scope: (function, is `defer cancel()` the next statement) -/\ndef cancels : List (String × Bool) := [")
 	for i, cf := range an.Cancels {
 		if i > 0 {
